@@ -90,7 +90,7 @@ theorem toSigned_enc32 (v : Int) (h1 : -2147483648 ≤ v) (h2 : v < 2147483648) 
 /-! ### values -/
 
 theorem readDtime_enc (y tz mo d h mi s ms : Nat) (r : Bytes)
-    (hy : 1900 ≤ y) (htz : tz < 16) (hmo : mo < 16) (hms : ms < 65536) :
+    (hy : 1900 ≤ y) (htz : tz < 16) (hmo : mo < 16) (_hms : ms < 65536) :
     readDtime ([y - 1900, tz * 16 + mo, d, h, mi, s, ms / 256, ms % 256] ++ r) = .ok (.dtime y tz mo d h mi s ms, r) := by
   simp only [readDtime, readUshort, readUnorm, List.cons_append, List.nil_append, readByte_cons]
   congr 2
@@ -582,5 +582,39 @@ theorem readSet_enc (t : Table) (ch : Choices) (rest : Bytes) :
     simp only [Bool.false_eq_true, if_false, List.cons_append, List.append_assoc, readByte_cons]
     rcases hr with h | h | h <;> rw [h] <;>
       simp [mkCD, CD.isSetGroup, CD.role, CD.bits, CD.isObject, CD.hasSetN, readIdent_enc]
+
+theorem readEflr_enc (t : Table) (ch : Choices) (h : t.wf) : readEflr (encodeEflr t ch) = .ok t := by
+  obtain ⟨_, _, hempty, hnd, hcols, hrows, hnames⟩ := h
+  unfold encodeEflr readEflr
+  rw [readSet_enc]
+  simp only []
+  cases hc : t.cols with
+  | nil =>
+    have hr := hempty hc
+    simp only [hr, encCols, encRows, List.append_nil]
+    cases t; simp_all
+  | cons col cols =>
+    have e : encCols (col :: cols) ch.cols ++ encRows (col :: cols) t.rows ch.rows =
+        attrDesc (if col.inv = true then 0x40 else 0x20) (wantL globalDefault col.attr (ch.cols.headD default))
+          (wantC globalDefault col.attr (ch.cols.headD default)) (wantR globalDefault col.attr (ch.cols.headD default))
+          (wantU globalDefault col.attr (ch.cols.headD default)) (wantV globalDefault col.attr (ch.cols.headD default)) ::
+        (encAttrBody (wantL globalDefault col.attr (ch.cols.headD default))
+          (wantC globalDefault col.attr (ch.cols.headD default)) (wantR globalDefault col.attr (ch.cols.headD default))
+          (wantU globalDefault col.attr (ch.cols.headD default)) (wantV globalDefault col.attr (ch.cols.headD default)) col.attr
+          ++ encCols cols ch.cols.tail ++ encRows (col :: cols) t.rows ch.rows) := by
+      simp [encCols, encAttr]
+    have hlen : (col :: cols).length ≤ (encCols (col :: cols) ch.cols ++ encRows (col :: cols) t.rows ch.rows).length + 1 := by
+      have := encCols_length (col :: cols) ch.cols
+      simp only [List.length_append]; omega
+    have hstart : objStart (encRows (col :: cols) t.rows ch.rows) := by
+      have := encRows_objStart (col :: cols) t.rows ch.rows [] (Or.inl rfl)
+      simpa using this
+    have ht := readTemplate_enc (col :: cols) ch.cols [] (encRows (col :: cols) t.rows ch.rows) _ (by simp) hlen
+      (by rw [← hc]; exact hcols) (by rw [← hc]; exact hnd) (by simp) hstart
+    have ho := readObjects_enc (col :: cols) t.rows ch.rows ((encRows (col :: cols) t.rows ch.rows).length + 1)
+      (by have := encRows_length (col :: cols) t.rows ch.rows; omega) (by rw [← hc]; exact hrows)
+    rw [e] at ht ⊢
+    simp only [ht, ho, dedup_nodup t.rows hnames]
+    cases t; simp_all
 
 end TD.C03
